@@ -88,3 +88,10 @@ def run(eng, tier):
         'not_decided': [],
         'assumptions': ['contains()/== on Addr are the library predicates they name'],
     }
+
+import probes as _pb
+PROBES = [
+    _pb.drop_facts('execute', 'ExpireAsk', 'contains(CFG.executors, SENDER)'),
+    _pb.drop_facts('execute', 'CancelBid', 'SENDER == BID.owner'),
+    _pb.drop_facts('execute', 'ApproveAsk', 'contains(CFG.approvers, SENDER)'),
+]
